@@ -369,6 +369,157 @@ def nat_unpivot_rows(h):
         h.check(ok, 'unpivot.unpivot_rows', (rows, ups, keep, ev), want[:2], got[:2])
 
 
+UNPIVOT_SPEC = '''
+def unpivot_plan(fields, unpivot_fields, regex, match, sub):
+    remaining = list(fields)
+    selected = []
+    for u in unpivot_fields:
+        taken = [f for f in remaining if match(u['name'], f['name'])]
+        remaining = [f for f in remaining if not match(u['name'], f['name'])]
+        for f in taken:
+            keys = {}
+            for k in u['keys']:
+                v = u['keys'][k]
+                if regex and isinstance(v, str):
+                    v = sub(u['name'], v, f['name'])
+                keys[k] = v
+            selected.append((f, keys))
+    return selected, remaining
+'''
+
+
+def sym_unpivot_pkg(vc):
+    """unpivot.func package phase -- BOUNDED (structure unrolled: <= 3 schema fields x <= 2 unpivot specs, contents symbolic):
+    fields are partitioned spec by spec (a field is taken by the first spec matching it, never twice); the row phase gets the
+    unpivoted fields in selection order with their derived key values and the names of the kept fields; the schema becomes
+    kept ++ extra_keys ++ [extra_value]."""
+    import z3
+    from pyvc.api import (real_function, LoopSpec, check, cover, SpecModule, sym_str, PyList, PyDict, UFunc, wrap, term, StrS,
+                          Tree)
+    from pyvc import lib
+    from contracts.common import mk_package2, field_tree, tree_writes_under
+    fk = vc.under_contract('dataflows/processors/unpivot.py', ['unpivot', 'func'])
+    vc.under_contract('dataflows/processors/unpivot.py', ['match_fields'])
+    spec = SpecModule(UNPIVOT_SPEC)
+    vc.bounded_label = 'unpivot package phase'
+    vc.bounded_notes.append('unpivot.func package phase: schema field list unrolled for 0..3 fields with pairwise distinct symbolic '
+                            'names, 1..2 unpivot specs each with one symbolic key value, regex on/off')
+    try:
+        for nf in (0, 1, 2, 3):
+            for nu in (1, 2):
+                for regex in (True, False):
+                    def thunk(it, nf=nf, nu=nu, regex=regex):
+                        maker = real_function(it, 'dataflows.processors.unpivot', 'unpivot')
+                        ufs = PyList([PyDict({'name': sym_str(it, 'uname%d' % j), 'keys': PyDict({'k': sym_str(it, 'kval%d' % j)})})
+                                      for j in range(nu)])
+                        extra_keys = PyList([PyDict({'name': 'k', 'type': 'string'})])
+                        extra_value = PyDict({'name': sym_str(it, 'vname'), 'type': 'any'})
+                        func = it.call(maker, [ufs, extra_keys, extra_value], dict(regex=regex, resources=None))
+                        package = mk_package2(it)
+                        flds = [field_tree(it, 'fld%d' % j) for j in range(nf)]
+                        for a in range(nf):
+                            for b in range(a + 1, nf):
+                                it.assume(flds[a].children['name'].t != flds[b].children['name'].t)
+
+                        def match(it_, a, k):
+                            if regex:
+                                return wrap(lib.RE_FULLMATCH(term(a[0], StrS), term(a[1], StrS)))
+                            r = lib.values_equal(it_, a[0], a[1])
+                            return r if isinstance(r, bool) else wrap(r)
+
+                        def sub(it_, a, k):
+                            return wrap(lib.RE_SUB(term(a[0], StrS), term(a[1], StrS), term(a[2], StrS)))
+                        sp = spec.bind(it)
+
+                        def res_start(it, env, rd):
+                            lst = PyList(list(flds))
+                            sch = lib.tree_child(it, rd, 'schema')
+                            lst.parent = sch
+                            sch.children['fields'] = lst
+                            return rd
+
+                        def res_end(it, env, rd, events):
+                            sel, remaining = it.call(sp.attrs['unpivot_plan'], [PyList(list(flds)), ufs, regex,
+                                                                                UFunc('match', match), UFunc('sub', sub)])
+                            conf = env.lookup('all_res_config')
+                            ent = [v for k, v in conf.d.items() if k is rd.children['name']]
+                            tag = '[%d,%d,%s]' % (nf, nu, regex)
+                            if len(ent) != 1:
+                                check(it, 'config-registered' + tag, False)
+                                return
+                            c = ent[0]
+                            got = c.d.get('unpivot_fields_without_regex')
+                            ok = got is not None and len(got.items) == len(sel.items) and \
+                                all(g is w[0] for g, w in zip(got.items, sel.items))
+                            check(it, 'unpivoted-fields-in-selection-order-each-once' + tag, ok)
+                            if ok:
+                                for g, w in zip(got.items, sel.items):
+                                    kv = g.children.get('keys')
+                                    wk = w[1]
+                                    same = isinstance(kv, PyDict) and set(kv.d) == set(wk.d) and True
+                                    check(it, 'derived-key-values' + tag, z3.And(*[term(kv.d[k], StrS) == term(wk.d[k], StrS)
+                                                                                  for k in wk.d]) if same else False)
+                            keep = c.d.get('fields_to_keep')
+                            okk = keep is not None and len(keep.items) == len(remaining.items)
+                            check(it, 'kept-names-are-the-unclaimed-fields' + tag,
+                                  z3.And(*[term(a, StrS) == b.children['name'].t for a, b in zip(keep.items, remaining.items)])
+                                  if okk and keep.items else okk)
+                            ws = [e for e in tree_writes_under(events, rd) if e.kind == 'TreeWrite' and e.key == 'fields']
+                            oks = len(ws) == 1 and isinstance(ws[0].value, PyList) and \
+                                len(ws[0].value.items) == len(remaining.items) + 2 and \
+                                all(a is b for a, b in zip(ws[0].value.items, remaining.items)) and \
+                                ws[0].value.items[-1] is extra_value and ws[0].value.items[-2] is extra_keys.items[0]
+                            check(it, 'schema-is-kept-then-keys-then-value' + tag, oks)
+                            cover(it, 'reachable' + tag)
+                        it.loops['func#L0'] = LoopSpec(at_start=res_start, at_end=res_end, keep=('all_res_config',))
+                        it.loops['func#L4'] = LoopSpec(modes=('exit',))
+                        it.run_generator(it.call(func, [package]))
+                    paths = vc.explore(fk, thunk, min_paths=2)
+                    expect_no_raise_or_same(vc, fk, paths)
+    finally:
+        vc.bounded_label = None
+
+
+def nat_unpivot_flow(h):
+    """bounded end-to-end: unpivot on real packages (overlapping specs included) against an independent reference"""
+    import re
+    from dataflows import Flow, unpivot
+    cols_pool = ['2000', '2001', 'q1_sales', 'q2_sales', 'name', 'id']
+    for _ in range(h.n(30, 300)):
+        cols = h.rng.sample(cols_pool, h.rng.randint(2, 5))
+        rows = [{c: '%s-%d' % (c, i) for c in cols} for i in range(h.rng.randint(0, 3))]
+        specs = []
+        for _s in range(h.rng.randint(1, 2)):
+            kind = h.rng.choice(['lit', 're', 'all'])
+            if kind == 'lit':
+                specs.append(dict(name=re.escape(h.rng.choice(cols)), keys=dict(key='const')))
+            elif kind == 're':
+                specs.append(dict(name=r'([0-9]{4})', keys=dict(key=r'\1')))
+            else:
+                specs.append(dict(name=r'(q\d)_sales', keys=dict(key=r'\1')))
+        remaining = list(cols)
+        sel = []
+        for u in specs:
+            taken = [c for c in remaining if re.fullmatch(u['name'], c)]
+            remaining = [c for c in remaining if not re.fullmatch(u['name'], c)]
+            for c in taken:
+                sel.append((c, {k: re.sub(u['name'], v, c) for k, v in u['keys'].items()}))
+        want = []
+        for r in rows:
+            for c, keys in sel:
+                o = dict(keys)
+                for k in remaining:
+                    o[k] = r[k]
+                o['value'] = r.get(c)
+                want.append(o)
+        got = h.run(lambda: Flow([dict(r) for r in rows],
+                                 unpivot([dict(u, keys=dict(u['keys'])) for u in specs], [dict(name='key', type='string')],
+                                         dict(name='value', type='string'))).results()[0][0] if rows else [])
+        if not rows:
+            continue
+        h.check(got[0] == 'ok' and got[1] == want, 'dataflows/processors/unpivot.py::unpivot.func', (cols, rows, specs), want, got[:2])
+
+
 ITEMS = [
     Item('filter_rows.process_resource', sym_filter_process_resource, [('differential', nat_filter_process_resource)],
          'dataflows/processors/filter_rows.py::process_resource'),
@@ -379,4 +530,5 @@ ITEMS = [
     Item('deduplicate.func', sym_dedup_func, [], 'dataflows/processors/deduplicate.py::deduplicate.func'),
     Item('unpivot.unpivot_rows', sym_unpivot_rows, [('differential', nat_unpivot_rows)],
          'dataflows/processors/unpivot.py::unpivot_rows'),
+    Item('unpivot.package-phase', sym_unpivot_pkg, [('end-to-end', nat_unpivot_flow)], 'dataflows/processors/unpivot.py::unpivot.func'),
 ]
